@@ -24,13 +24,30 @@ var NestUnits = []NestUnit{
 	{`{"a":`, `,"z":0}`}, // followed by a sibling member
 	{`{"\n":`, "}"},      // escaped key
 	{`["x",`, "]"},       // after a string element
+	// after a CONTAINER sibling: decoders that pool per-level state hand the state of the finished
+	// sibling to the next one (seeded change C10r6-m1: a pooled child reader forgets its depth)
+	{"[[],", "]"},
+	{"[{},", "]"},
+	{`{"a":{},"b":`, "}"},
+	{`{"a":[1],"b":`, "}"},
 }
 
 // NestPatterns are cyclic sequences of unit indices: pure arrays, pure objects, mixtures.
 var NestPatterns = [][]int{
 	{0}, {1}, {2}, {3}, {4}, {5}, {6}, {7}, {8}, {9},
 	{0, 2}, {2, 0}, {1, 3}, {0, 0, 2}, {2, 2, 0}, {0, 2, 1, 3}, {6, 7}, {4, 5},
+	{10}, {12}, {11, 13},
 }
+
+// NestPatternsDeepQuick: the patterns run at the depth limit in the quick tier.
+var NestPatternsDeepQuick = append(append([][]int{}, NestPatterns[:12]...), NestPatterns[18:]...)
+
+var _ = func() int {
+	if len(NestPatterns) != 21 {
+		panic("NestPatterns changed: adjust NestPatternsDeepQuick")
+	}
+	return 0
+}()
 
 var NestInner = []string{"", "0", `"s"`, "null", "[]", "{}"}
 
@@ -68,6 +85,24 @@ func BuildNest(pattern []int, depth int, inner string, closers int) []byte {
 	return b.Bytes()
 }
 
+// MaxNesting returns the deepest container nesting of a document built from nest units (strings
+// in the units contain no brackets).
+func MaxNesting(doc []byte) int {
+	d, m := 0, 0
+	for _, b := range doc {
+		switch b {
+		case '[', '{':
+			d++
+			if d > m {
+				m = d
+			}
+		case ']', '}':
+			d--
+		}
+	}
+	return m
+}
+
 // W4 emits depth-boundary documents: every pattern x depth in depths x inner x {closed,
 // unclosed, half closed} plus a trailing-garbage variant.
 func W4(depths []int, patterns [][]int, inners []string, sink Sink) {
@@ -100,13 +135,34 @@ func W4(depths []int, patterns [][]int, inners []string, sink Sink) {
 					}
 					c.Input = doc
 					c.Desc = ""
-					c.Deep = total > 10000
+					c.Deep = total > 10000 || MaxNesting(doc) > 10000
 					c.P = [4]int{pi, d, ii, vi}
 					sink(c)
 				}
 			}
 		}
 	}
+}
+
+// BuildNestFinal nests depth-1 levels of pattern and then one level opened by unit `final`.
+func BuildNestFinal(pattern []int, depth int, final int, inner string) []byte {
+	var b bytes.Buffer
+	u := NestUnits[final]
+	for i := 0; i < depth-1; i++ {
+		b.WriteString(NestUnits[pattern[i%len(pattern)]].Open)
+	}
+	if inner == "" {
+		b.WriteByte(u.Open[0])
+		b.WriteByte(u.Close[len(u.Close)-1])
+	} else {
+		b.WriteString(u.Open)
+		b.WriteString(inner)
+		b.WriteString(u.Close)
+	}
+	for i := depth - 2; i >= 0; i-- {
+		b.WriteString(NestUnits[pattern[i%len(pattern)]].Close)
+	}
+	return b.Bytes()
 }
 
 // W4Final: at the depth limit the LAST opener is varied over every nest unit (every call site of
@@ -141,7 +197,7 @@ func W4Final(sink Sink) {
 					}
 					c.Input = b.Bytes()
 					c.Desc = ""
-					c.Deep = d > 10000
+					c.Deep = d > 10000 || MaxNesting(c.Input) > 10000
 					c.P = [4]int{bi, d, ui, ii}
 					sink(c)
 				}
@@ -152,7 +208,7 @@ func W4Final(sink Sink) {
 
 // W4 standard parameter sets.
 func W4Quick(sink Sink) {
-	W4([]int{9999, 10000, 10001, 10003}, NestPatterns[:12], []string{"", "0"}, sink)
+	W4([]int{9999, 10000, 10001, 10003}, NestPatternsDeepQuick, []string{"", "0"}, sink)
 	W4([]int{1, 2, 3, 17, 100}, NestPatterns, NestInner, sink)
 	W4Final(sink)
 }
